@@ -46,7 +46,7 @@ def run(c):
     binp = c.build("txn")
     c.tlc_must_pass("TxnStoreMC", "TxnStoreMC.cfg", workers=8, timeout=300)
     big = c.pick([0, 0, 100, 5000, 70000], [0, 0, 100, 5000, 70000, 1 << 20])
-    g = _txncfg.gen(c, "c", MaxStores=2, MaxTxns=5, MaxOps=c.pick(40, 90), Keys=c.pick(30, 60), Slots=[2, 3, 4, 5, 7, 8, 9, 24, 64, 500], Neighbour=True,
+    g = _txncfg.gen(c, "c", MaxStores=2, MaxTxns=5, MaxOps=c.pick(40, 90), Keys=c.pick(30, 60), Slots=[2, 3, 4, 5, 7, 8, 9, 24, 64, 500], Neighbour=True, ClearL2=20,
                     BigValues=big, DupStores=True)
     seq = txnlib.run_driver(c, binp, "seq", _txncfg.cfg(c, "seq", c.pick(40, 300), g, child=c.pick(3, 2)), timeout=c.pick(900, 3000))
     classes = txnlib.validate_skipping(c, seq, "TxnStoreTrace.cfg", classify)
